@@ -103,7 +103,9 @@ def cases(tier):
     for dt in ALL:
         for shp in shapes_hist(tier):
             if tier == "thorough":
-                d = 3 if len(shp) <= 2 else 2
+                # depth 3 for rank 1 (every type) and for rank 2 with five types; depth 2 otherwise (a full depth-3
+                # run over all 19 shapes x 12 types did not finish within the two-hour cap: 148 of 351 cases)
+                d = 3 if (len(shp) == 1 or (len(shp) == 2 and dt in ("int16", "float64", "bool", "text", "uint64"))) else 2
             else:
                 d = 2 if dt in ("int16", "float64", "bool", "text", "uint64") else 1
             yield {"k": "hist", "dtype": dt, "shape": list(shp), "depth": d}
